@@ -159,8 +159,7 @@ theorem include_nested_scope (resolve : Tree → Option Kvs) (s inc : String) (t
   simp only [processIncs]
   rw [processSubs]
   simp only [hs, hne, hp]
-  · simp [processSubs]
-  · intro h; cases h
+  simp [processSubs]
 
 /-- Non-vacuity: a base and a child sharing a map key, a conflict key and disjoint keys. -/
 example :
